@@ -755,8 +755,10 @@ def interp_axis(self, values, axis=0, left=np.nan, right=np.nan, issorted=None):
     array([[-3.3,  2.5, -4.4],
            [-3.3,  5.5, -4.4]])
     """
+    if isinstance(values, Axis):
+        axis = values.name # an Axis names its dimension (like in reindex_axis)
     pos, name = self._get_axis_info(axis)
-    newaxis = Axis(values, name) # necessary array & type checks 
+    newaxis = Axis(values, name) # necessary array & type checks
 
     # sort the axis if needed, to apply numpy interp
     obj = _interp_internal_maybe_sort(self, axis, issorted)
